@@ -194,3 +194,21 @@ Theorem C17_generate_ll65536_refuted :
   decode_offsets rep_start st = Ok ([4; 4], (4, 1, 8)).
 Proof. exact generate_ll65536_refuted. Qed.
 Print Assumptions C17_generate_ll65536_refuted.
+
+(* ---- valid parses round-trip, with the entropy stage modelled (raw literals, predefined FSE tables: coq/Codec/EncodeSeq.v) instead
+        of quantified over: a source cut into blocks whose parses are valid on the bytes (every match repeats the bytes at its
+        offset, offsets resolve through the repeat-offset rule the transcription theorems above keep in lock-step), passing the
+        number-level checks of the format, decodes - through the reference decoder - to the source ---- *)
+From ZV.Codec Require Import Frame Encode EncodeProofs EncodeSeq EncodeLzFrame EncodeLzFrameProofs LzParse LzParseProofs.
+
+Theorem C17_valid_parse_frames_round_trip : forall cfg d p dictID x sbs ebs z rest,
+  let full := dict_content d ++ x in
+  let win := frame_window p (lenN x) in
+  let blockMax := N.min (N.min win BLOCK_MAX) (c_block_max cfg) in
+  sbs <> [] ->
+  sblocks_ok full (lenN (dict_content d)) (e_rep (dict_entropy d)) sbs ->
+  pblocks_run (c_strict_window cfg) win blockMax (z_init d) (to_pblocks full (lenN (dict_content d)) sbs) = Some (ebs, z) ->
+  params_ok p (lenN x) dictID -> c_magicless cfg = fp_magicless p -> win <= c_window_max cfg -> dict_ok d p dictID ->
+  exists t, decode_frame cfg d (enc_frame p dictID ebs ++ rest) = Ok (x, t, rest).
+Proof. exact valid_parses_round_trip. Qed.
+Print Assumptions C17_valid_parse_frames_round_trip.
